@@ -4,6 +4,7 @@ package pubsub
 
 import (
 	"context"
+	"github.com/gobwas/glob"
 	"net"
 	"strconv"
 	"time"
@@ -76,6 +77,9 @@ func verifSubscribe(tag string) {
 	c2, f2 := newConn()
 	pattern := vr.Choose("pattern", 2) == 1
 	pre := vr.Tok("pre")
+	if pattern {
+		verifValid(pre)
+	}
 	if vr.Choose("c1_pre", 2) == 1 {
 		ps.Subscribe(ctx, c1, []string{pre}, pattern)
 	}
@@ -85,6 +89,10 @@ func verifSubscribe(tag string) {
 	f1.written, f1.writes = nil, 0
 	f2.written, f2.writes = nil, 0
 	a, b := vr.Tok("a"), vr.Tok("b")
+	if pattern {
+		verifValid(a)
+		verifValid(b)
+	}
 	ps.Subscribe(ctx, c1, []string{a, b}, pattern)
 	action := "subscribe"
 	if pattern {
@@ -140,7 +148,7 @@ func Verif_C18_Introspection() {
 	ctx := context.Background()
 	c1, _ := newConn()
 	c2, _ := newConn()
-	n1, p1 := vr.Tok("n1"), vr.Tok("p1")
+	n1, p1 := vr.Tok("n1"), verifValid(vr.Tok("p1"))
 	// whether PUBSUB CHANNELS also lists pattern subscriptions is not fixed by the property:
 	// keep the two spellings apart here
 	vr.Assume(n1 != p1)
@@ -201,7 +209,7 @@ func Verif_C18_Delivery() {
 	c1, f1 := newConn()
 	c2, f2 := newConn()
 	c3, f3 := newConn()
-	name, other, pat := vr.Tok("name"), vr.Tok("other"), vr.Tok("pat")
+	name, other, pat := vr.Tok("name"), vr.Tok("other"), verifValid(vr.Tok("pat"))
 	vr.Assume(name != other)
 	ps.Subscribe(ctx, c1, []string{name}, false)
 	ps.Subscribe(ctx, c2, []string{pat}, true)
@@ -254,4 +262,11 @@ func Verif_C18_Order() {
 	vr.Assert(f1.writes == 2, "C18.order.both_delivered")
 	vr.Assert(string(f1.written) == message(name, m1)+message(name, m2), "C18.order.publish_order")
 	vr.Reach("end")
+}
+
+// verifValid: p is a syntactically valid glob (the handlers refuse the others before they get here).
+func verifValid(p string) string {
+	_, err := glob.Compile(p)
+	vr.Assume(err == nil)
+	return p
 }
